@@ -35,7 +35,7 @@ class MemoryStorage(Storage):
         """
         search_id = f"{self._search_id_counter}"  # converting to str
         self._search_id_counter += 1
-        self._data[search_id] = {"job_id_counter": 0, "data": {}}
+        self._data[search_id] = {"job_id_counter": 0, "data": {}, "values": {}}
         return search_id
 
     def create_new_job(self, search_id: Hashable) -> Hashable:
@@ -156,7 +156,7 @@ class MemoryStorage(Storage):
             key (Hashable): A key to use to store the value.
             value (Any): The value to store.
         """
-        self._data[search_id][key] = value
+        self._data[search_id]["values"][key] = value
 
     def load_search_value(self, search_id: Hashable, key: Hashable) -> Any:
         """Loads the value corresponding to key for search_id.
@@ -165,7 +165,7 @@ class MemoryStorage(Storage):
             search_id (Hashable): The identifier of the job.
             key (Hashable): A key to use to access the value.
         """
-        return self._data[search_id][key]
+        return self._data[search_id]["values"][key]
 
     def load_metadata_from_all_jobs(self, search_id: Hashable, key: Hashable) -> List[Any]:
         """Loads a given metadata value from all jobs.
